@@ -66,7 +66,7 @@ def handle (toks : List String) : String :=
         match hd, a with
         | [t], [w, h, iter, plen, n] =>
           let (ws, rest) ← takeParsed parseInt? n rest
-          if rest.isEmpty && w ≥ 1 && h ≥ 1 then some (t, mode, w, h, iter, plen, ws) else none
+          if rest.isEmpty && w ≥ 1 && h ≥ 1 && t ≥ 1 && t ≤ 64 then some (t, mode, w, h, iter, plen, ws) else none
         | _, _ => none
       | [] => none) with
     | none => "bad-op"
@@ -82,7 +82,7 @@ def handle (toks : List String) : String :=
         match hd, a with
         | [t], [w, h, d, iter, plen, n] =>
           let (ws, rest) ← takeParsed parseInt? n rest
-          if rest.isEmpty && w ≥ 1 && h ≥ 1 && d ≥ 1 then some (t, mode, w, h, d, iter, plen, ws) else none
+          if rest.isEmpty && w ≥ 1 && h ≥ 1 && d ≥ 1 && t ≥ 1 && t ≤ 64 then some (t, mode, w, h, d, iter, plen, ws) else none
         | _, _ => none
       | [] => none) with
     | none => "bad-op"
@@ -95,7 +95,7 @@ def handle (toks : List String) : String :=
       let total ← parseInt? total
       let n ← parseNat? n
       let (ws, rest) ← takeParsed parseInt? n rest
-      if rest.isEmpty then some (t, mode, total, ws) else none) with
+      if rest.isEmpty && t ≥ 1 && t ≤ 64 then some (t, mode, total, ws) else none) with
     | none => "bad-op"
     | some (t, mode, total, ws) =>
       match rawBracket mode total with
@@ -104,35 +104,38 @@ def handle (toks : List String) : String :=
         match weightedMedian {} t ws a b with
         | .ok (p, l) => "med " ++ toString p ++ " " ++ toString l
         | .error e => showAbort e
-  | ["pos2", w, _h, i] =>
-    match parseNat? w, parseNat? i with
-    | some w, some i =>
-      if w = 0 then "bad-op" else
-      let p := positionOf2 w i
-      "pos " ++ toString p.1 ++ " " ++ toString p.2
-    | _, _ => "bad-op"
-  | ["idx2", w, _h, x, y] =>
-    match parseNat? w, parseNat? x, parseNat? y with
-    | some w, some x, some y => "idx " ++ toString (indexOf2 w (x, y))
-    | _, _, _ => "bad-op"
-  | ["pos3", w, h, _d, i] =>
+  | ["pos2", w, h, i] =>
     match parseNat? w, parseNat? h, parseNat? i with
     | some w, some h, some i =>
       if w = 0 || h = 0 then "bad-op" else
+      let p := positionOf2 w i
+      "pos " ++ toString p.1 ++ " " ++ toString p.2
+    | _, _, _ => "bad-op"
+  | ["idx2", w, h, x, y] =>
+    match parseNat? w, parseNat? h, parseNat? x, parseNat? y with
+    | some w, some h, some x, some y =>
+      if w = 0 || h = 0 then "bad-op" else "idx " ++ toString (indexOf2 w (x, y))
+    | _, _, _, _ => "bad-op"
+  | ["pos3", w, h, d, i] =>
+    match parseNat? w, parseNat? h, parseNat? d, parseNat? i with
+    | some w, some h, some d, some i =>
+      if w = 0 || h = 0 || d = 0 then "bad-op" else
       let p := positionOf3 w h i
       "pos " ++ toString p.1 ++ " " ++ toString p.2.1 ++ " " ++ toString p.2.2
-    | _, _, _ => "bad-op"
-  | ["idx3", w, h, _d, x, y, z] =>
-    match parseNat? w, parseNat? h, parseNat? x, parseNat? y, parseNat? z with
-    | some w, some h, some x, some y, some z => "idx " ++ toString (indexOf3 w h (x, y, z))
-    | _, _, _, _, _ => "bad-op"
+    | _, _, _, _ => "bad-op"
+  | ["idx3", w, h, d, x, y, z] =>
+    match parseNat? w, parseNat? h, parseNat? d, parseNat? x, parseNat? y, parseNat? z with
+    | some w, some h, some d, some x, some y, some z =>
+      if w = 0 || h = 0 || d = 0 then "bad-op" else "idx " ++ toString (indexOf3 w h (x, y, z))
+    | _, _, _, _, _, _ => "bad-op"
   | ["len2", w, h] =>
     match parseNat? w, parseNat? h with
-    | some w, some h => "len " ++ toString (w * h)
+    | some w, some h => if w = 0 || h = 0 then "bad-op" else "len " ++ toString (w * h)
     | _, _ => "bad-op"
   | ["len3", w, h, d] =>
     match parseNat? w, parseNat? h, parseNat? d with
-    | some w, some h, some d => "len " ++ toString (w * h * d)
+    | some w, some h, some d =>
+      if w = 0 || h = 0 || d = 0 then "bad-op" else "len " ++ toString (w * h * d)
     | _, _, _ => "bad-op"
   | _ => "bad-op"
 
